@@ -75,16 +75,28 @@ def h_prefix(eng, case):
     Name, Component = _N()
     a = env.name_from_shape(eng, [tuple(x) for x in case['a']], 'a')
     b = env.name_from_shape(eng, [tuple(x) for x in case['b']], 'b')
+    pad = case.get('pad')
+    if pad:
+        # a long concrete component moves the Name value across 253 bytes (3-byte length header) on one or both sides
+        long = bytes([8, 0xFD, 1, 4]) + b'y' * 260
+        if pad == 'b':
+            b = b + [long]
+        elif pad == 'both':
+            a, b = [long] + a, [long] + b
+        else:
+            a = a + [long]
     exp = len(a) <= len(b)
     if exp:
         for x, y in zip(a, b):
-            exp = And(exp, beq(x, y))
+            exp = And(exp, len(x) == len(y) and beq(x, y))
     try:
         got = Name.is_prefix(a, b)
         eng.check(Iff(got, exp), 'prefix-test')
         if case.get('wire'):
-            got2 = Name.is_prefix(Name.encode(a), tobytes(Name.encode(b)))
-            eng.check(Iff(got2, exp), 'prefix-test')
+            wa, wb = Name.encode(a), Name.encode(b)
+            eng.check(Iff(Name.is_prefix(wa, tobytes(wb)), exp), 'prefix-test', sig='wire-wire')
+            eng.check(Iff(Name.is_prefix(a, wb), exp), 'prefix-test', sig='list-wire')
+            eng.check(Iff(Name.is_prefix(mview(wa), b), exp), 'prefix-test', sig='wire-list')
     except Exception as e:
         eng.fail('no-exception', exc_sig(e), repr(e)[:200])
         return
@@ -328,6 +340,9 @@ def cases(tier, seed):
     for a in _shapes(2, small):
         for b in _shapes(2, small):
             cs.append(('prefix', {'a': a, 'b': b, 'wire': len(a) + len(b) <= 3}))
+            if len(a) + len(b) <= 2:
+                for pad in ('a', 'b', 'both'):
+                    cs.append(('prefix', {'a': a, 'b': b, 'wire': True, 'pad': pad}))
     for fa in (1, 3):
         for fb in (1, 3):
             for la in range(0, 4):
